@@ -68,6 +68,8 @@ theorem gen_matches_callNumOut : Generated.C17Kinds.callNumOutCases = [
 
 theorem gen_matches_callNativePrefix : Generated.C17Kinds.callNativePrefix = ["f := p.nativeFuncs[index]", "minIn := len(f.in)", "var variadicType reflect.Type", "if f.isVariadic { variadicType = f.in[len(f.in)-1].Elem() minIn-- }", "values := make([]reflect.Value, 0, 7)", "for i, a := range args { var argType reflect.Type if !f.isVariadic || i < len(f.in)-1 { argType = f.in[i] } else { argType = variadicType } arg := p.toNative(a, argType) if arg.Type() != argType { arg = arg.Convert(argType) } values = append(values, arg) }", "for i := len(args); i < minIn; i++ { values = append(values, reflect.Zero(f.in[i])) }", "outs := f.value.Call(values)"] := by rfl
 
+theorem gen_matches_checkGuards : Generated.C17Kinds.checkNativeFuncGuards = ["if lexer.KeywordToken(name) != lexer.ILLEGAL { return newError(\"can't use keyword %q as native function name\", name) }", "typ := reflect.TypeOf(f)", "if typ == nil || typ.Kind() != reflect.Func { return newError(\"native function %q is not a function\", name) }", "if reflect.ValueOf(f).IsNil() { return newError(\"native function %q is nil\", name) }", "for i := 0; i < typ.NumIn(); i++ { param := typ.In(i) if typ.IsVariadic() && i == typ.NumIn()-1 { param = param.Elem() } if !validNativeType(param) { return newError(\"native function %q param %d is not int or string\", name, i) } }", "return nil"] := by rfl
+
 theorem gen_matches_resolver : Generated.C17Kinds.resolverNativeBranch = "{ typ := reflect.TypeOf(v.nativeFuncs[n.Name]) if typ == nil || typ.Kind() != reflect.Func { panic(ast.PosErrorf(n.Pos, \"native function %q is not a function\", n.Name)) } numParams = typ.NumIn() if typ.IsVariadic() { numParams = 1000000000 } }" ∧ Generated.C17Kinds.resolverVariadicCap = 1000000000 := ⟨rfl, rfl⟩
 
 theorem gen_matches_keywords : Generated.C17Kinds.keywords = ["BEGIN", "END", "atan2", "break", "close", "continue", "cos", "delete", "do", "else", "exit", "exp", "fflush", "for", "function", "getline", "gsub", "if", "in", "index", "int", "length", "log", "match", "next", "nextfile", "print", "printf", "rand", "return", "sin", "split", "sprintf", "sqrt", "srand", "sub", "substr", "system", "tolower", "toupper", "while"] := by rfl
@@ -84,18 +86,19 @@ theorem gen_kind_sets_agree :
 
 /-! ## which signatures are accepted -/
 
-/-- accepted at set-up ⇔ not named like a keyword ∧ every parameter (the element type for the variadic tail) is of a documented
-kind ∧ the results are none, one documented value, or a documented value and `error` -/
+/-- accepted at set-up ⇔ not named like a keyword ∧ not a nil function value ∧ every parameter (the element type for the variadic
+tail) is of a documented kind ∧ the results are none, one documented value, or a documented value and `error` -/
 theorem sig_accept_iff (name : Bytes) (s : Sig) (isNil : Bool) :
-    (checkNativeFunc (isKeyword name) (.func s isNil)).1 = .ok () ↔ isKeyword name = false ∧ DocumentedShape s :=
+    (checkNativeFunc (isKeyword name) (.func s isNil)).1 = .ok () ↔ isKeyword name = false ∧ isNil = false ∧ DocumentedShape s :=
   check_ok_iff _ s isNil
 
 /-- a non-function value is an error -/
 theorem nonfunc_rejected (name : Bytes) (k : RKind) : ∃ e, checkNativeFunc (isKeyword name) (.other k) = (.err [], some e) := by
   unfold checkNativeFunc; cases isKeyword name <;> simp
 
-/-- every function of undocumented shape, or named like a keyword, gets an error value (never a panic, never accepted) -/
-theorem bad_shape_is_error (name : Bytes) (s : Sig) (isNil : Bool) (h : ¬ (isKeyword name = false ∧ DocumentedShape s)) :
+/-- every function of undocumented shape, or nil, or named like a keyword, gets an error value (never a panic, never accepted) -/
+theorem bad_shape_is_error (name : Bytes) (s : Sig) (isNil : Bool)
+    (h : ¬ (isKeyword name = false ∧ isNil = false ∧ DocumentedShape s)) :
     ∃ e, checkNativeFunc (isKeyword name) (.func s isNil) = (.err [], some e) := by
   have h' := mt (sig_accept_iff name s isNil).1 h
   generalize isKeyword name = kw at h'
@@ -103,6 +106,9 @@ theorem bad_shape_is_error (name : Bytes) (s : Sig) (isNil : Bool) (h : ¬ (isKe
   cases kw with
   | true => simp
   | false =>
+    cases isNil with
+    | true => simp
+    | false =>
     simp only [Bool.false_eq_true, if_false] at h' ⊢
     cases h1 : checkParams s s.params 0 with
     | some e => exact ⟨e, rfl⟩
@@ -112,26 +118,32 @@ theorem bad_shape_is_error (name : Bytes) (s : Sig) (isNil : Bool) (h : ¬ (isKe
       | some e => exact ⟨e, rfl⟩
       | none => simp [h2] at h'
 
-/-- Full statement "everything that is not an acceptable function is rejected with an error". False of the current code for the
-untyped nil (finding G17-1): `checkNativeFunc` dereferences a nil `reflect.Type`. -/
-def OtherValuesRejected : Prop :=
-  ∀ (name : Bytes) (f : FVal), (∀ s n, f ≠ .func s n) → ∃ e, checkNativeFunc (isKeyword name) f = (.err [], some e)
-
-theorem other_values_rejected_partial (name : Bytes) (f : FVal) (h : ∀ s n, f ≠ .func s n) (hn : ∀ k, f = .other k ∨ isKeyword name = true) :
+/-- everything that is not a function — a value of another type, or the untyped nil (G17-1, repaired) — is rejected with an
+error, whatever its name -/
+theorem other_values_rejected (name : Bytes) (f : FVal) (h : ∀ s n, f ≠ .func s n) :
     ∃ e, checkNativeFunc (isKeyword name) f = (.err [], some e) := by
   cases f with
   | func s n => exact absurd rfl (h s n)
   | other k => exact nonfunc_rejected name k
-  | untypedNil =>
-    cases hn .invalid with
-    | inl h => cases h
-    | inr h => simp [checkNativeFunc, h]
+  | untypedNil => unfold checkNativeFunc; cases isKeyword name <;> simp
 
-theorem other_values_rejected_fails : ¬ OtherValuesRejected := by
-  intro h
-  obtain ⟨e, he⟩ := h [102] .untypedNil (by intro s n h; cases h)
-  have hk : isKeyword [102] = false := by decide
-  simp [checkNativeFunc, hk] at he
+/-- set-up never panics, for any value under any name -/
+theorem setup_never_panics (name : Bytes) (f : FVal) : ∀ w, (checkNativeFunc (isKeyword name) f).1 ≠ .panic w := by
+  intro w
+  unfold checkNativeFunc
+  cases isKeyword name with
+  | true => simp
+  | false =>
+    cases f with
+    | untypedNil => simp
+    | other k => simp
+    | func s n =>
+      cases n with
+      | true => simp
+      | false =>
+        simp only [Bool.false_eq_true, if_false]
+        cases checkParams s s.params 0 <;> simp
+        cases checkResults s.results <;> simp
 
 /-! ## the conversion table -/
 
@@ -333,21 +345,16 @@ theorem too_many_would_panic (s : Sig) (args : List AVal) (body : Body) (hv : s.
 /-- what the Go type system guarantees of the function's first result -/
 def BodyTyped (s : Sig) (body : Body) : Prop := ∀ vs r, s.results.head? = some r → (body vs).1.fits r = true
 
-/-- Full statement: an accepted function called with an accepted argument count never panics. False of the current code for a
-nil function value (finding G17-2): it is accepted at set-up and `reflect.Value.Call` panics. -/
-def NeverPanics : Prop :=
-  ∀ (name : Bytes) (s : Sig) (isNil : Bool), s.WF = true → (checkNativeFunc (isKeyword name) (.func s isNil)).1 = .ok () →
-    ∀ (args : List AVal), resolveCall (.func s isNil) args.length = .ok → ∀ body, BodyTyped s body →
-      ∀ w, (callNative s isNil args body).1 ≠ .panic w
-
-/-- accepted signature ∧ accepted argument count ∧ non-nil function ⇒ no panic: not in `toNative` (every parameter kind is
-convertible), not in `Convert` (named types), not in `f.in[i]`, not in `reflect.Value.Call` (count and types are right), not in
-`fromNative`, not in the result-count switch — for every argument list and every function body -/
-theorem never_panics_partial (name : Bytes) (s : Sig) (hwf : s.WF = true)
-    (hc : (checkNativeFunc (isKeyword name) (.func s false)).1 = .ok ())
-    (args : List AVal) (hr : resolveCall (.func s false) args.length = .ok) (body : Body) (hb : BodyTyped s body) :
-    ∀ w, (callNative s false args body).1 ≠ .panic w := by
-  obtain ⟨_, hparams, hres⟩ := (sig_accept_iff name s false).1 hc
+/-- accepted at set-up ∧ accepted argument count ⇒ no panic at call time: not in `toNative` (every parameter kind is convertible),
+not in `Convert` (named types), not in `f.in[i]`, not in `reflect.Value.Call` (the function is not nil — G17-2, repaired — and
+count and types are right), not in `fromNative`, not in the result-count switch — for every signature, every argument list and
+every function body -/
+theorem never_panics (name : Bytes) (s : Sig) (isNil : Bool) (hwf : s.WF = true)
+    (hc : (checkNativeFunc (isKeyword name) (.func s isNil)).1 = .ok ())
+    (args : List AVal) (hr : resolveCall (.func s isNil) args.length = .ok) (body : Body) (hb : BodyTyped s body) :
+    ∀ w, (callNative s isNil args body).1 ≠ .panic w := by
+  obtain ⟨_, hnil, hparams, hres⟩ := (sig_accept_iff name s isNil).1 hc
+  subst hnil
   have hp : ∀ j p, s.params[j]? = some p → validNativeType (effParam s j p) = true :=
     fun j p h => (validNativeType_iff _).2 (hparams j p h)
   have hn : s.variadic = false → args.length ≤ s.params.length := by
@@ -366,11 +373,13 @@ theorem never_panics_partial (name : Bytes) (s : Sig) (hwf : s.WF = true)
   · obtain ⟨x, hx⟩ := fromNative_ok r (body (cs ++ zeroFill s args.length)).1 ((validNativeType_iff r).2 hd) (hb _ r (by simp [h2]))
     cases he : (body (cs ++ zeroFill s args.length)).2 <;> simp [h2, hx, he]
 
-theorem never_panics_fails : ¬ NeverPanics := by
-  intro h
-  have := h [102] ⟨[.prim .int false], false, [.prim .int false]⟩ true (by decide) (by decide) [] (by decide)
-    (fun _ => (.i 0, none)) (by intro vs r hr; simp at hr; subst hr; rfl) "reflect.Value.Call rejects the call"
-  exact this (by decide)
+/-- the nil check at set-up is needed: a nil function value that reached `callNative` would panic in `reflect.Value.Call` -/
+theorem nil_func_would_panic : ∃ w, (callNative ⟨[.prim .int false], false, [.prim .int false]⟩ true [] (fun _ => (.i 0, none))).1 = .panic w :=
+  ⟨_, by decide⟩
+
+/-- …and it is made: a nil function value is rejected whatever its signature -/
+theorem nil_func_rejected (name : Bytes) (s : Sig) : ∃ e, checkNativeFunc (isKeyword name) (.func s true) = (.err [], some e) :=
+  bad_shape_is_error name s true (by simp)
 
 /-! ## non-vacuity -/
 
